@@ -79,14 +79,19 @@ UNITS += [
         /*@reports_are_only_accumulated*/ old(visitor).reported@ ==> final(visitor).reported@,
         // (implicit obligation, precondition of post_process: whenever an answer at a level demanded a rewrite -- a node changed,
         //  was removed or created, a subtree changed or was removed -- the level's tree is rebuilt and saved)
-        /*@levels_are_balanced*/ r is Ok ==> final(visitor).dirty@ =~= old(visitor).dirty@,
+        // (second implicit obligation of post_process: the rebuilt tree of a level consists of exactly the nodes the visitor's
+        //  answers dictate, in order -- kept nodes as returned, removed ones absent, visited directories with the id of their
+        //  rewritten subtree, created directories with the id of the empty tree)
+        /*@levels_are_balanced*/ r is Ok ==> final(visitor).levels@ =~= old(visitor).levels@,
 """,
          loops={1: """
             invariant
                 changed ==> visitor.reported@,
                 old(visitor).reported@ ==> visitor.reported@,
-                visitor.dirty@.len() == old(visitor).dirty@.len() + 1, visitor.dirty@.drop_last() =~= old(visitor).dirty@,
-                visitor.dirty@.last() ==> changed,
+                visitor.levels@.len() == old(visitor).levels@.len() + 1, visitor.levels@.drop_last() =~= old(visitor).levels@,
+                visitor.levels@.last().dirty ==> changed,
+                visitor.levels@.last().pending is None,
+                new_tree.nodes@ == visitor.levels@.last().expect,
 """},
          ),
 ]
@@ -196,7 +201,7 @@ UNITS += [
 KANI = []
 META = {"not_covered": [
     "merge (blob::tree::merge_trees / merge_nodes): local trait impls, BinaryHeap, `&impl Fn` parameters, mutual recursion",
-    "the assembly of the rewritten tree from the visitor's answers in modify_tree (which nodes end up in the new tree): only the change flag / save discipline in both directions is under contract",
+    "what the visitors answer for trees as a whole (pre_process_tree: unreadable trees replaced by empty ones) -- in modify_tree the visitor is a stub with arbitrary answers",
     "copy: selection of the blobs to copy (closures, TreeStreamerOnce); the byte-exact copy itself is C02's BlobCopier units, the ordering C03's copy_tail",
     "'restores identically' / 'union of paths' as whole-command statements",
 ]}
